@@ -22,8 +22,8 @@ type Step struct {
 }
 
 type Case struct {
-	Cfg   vmx.Cfg `json:"cfg"`
-	Steps []Step  `json:"steps"`
+	Cfg   vmx.Cfg  `json:"cfg"`
+	Steps []Step   `json:"steps"`
 	Kinds []string `json:"kinds,omitempty"` // informational: how each source was generated
 }
 
@@ -162,6 +162,7 @@ func checkCase(c Case, s *rt.Section) *rt.Failure {
 	vm := c.Cfg.NewVM()
 	vm.Config.CallbackSt = func(_type string, name string, val *ds.VMValue, extra *ds.VMValue, op string, detail string) {}
 	ceiling := ceilingFor(c.Cfg)
+	everParsed := false // some earlier step left a compiled program on the VM
 	for i, st := range c.Steps {
 		where := fmt.Sprintf("step %d %s(%q)", i, st.Call, clip(st.Src, 120))
 		var err error
@@ -190,13 +191,26 @@ func checkCase(c Case, s *rt.Section) *rt.Failure {
 		switch st.Call {
 		case "Run":
 			f = call("Run", func() { err = vm.Run(st.Src) })
+			if f == nil && err == nil {
+				everParsed = true
+			}
 			if f == nil && err == nil && vm.Ret == nil {
 				f = s.NewFailure("value-or-error", "c01:nil-ret", c, where+": Run returned nil error and Ret is nil", "a value")
 			}
-		case "ParseRun", "ParseRunRun", "ParseOnly":
+		case "ParseRun", "ParseRunRun", "ParseOnly", "ParseRunAnyway":
 			f = call("Parse", func() { err = vm.Parse(st.Src) })
 			if f == nil && err == nil {
 				parsed = true
+				everParsed = true
+			}
+			if f == nil && !parsed && everParsed && st.Call == "ParseRunAnyway" {
+				// a host that does not look at Parse's verdict and runs: an error (the parse error) or a value, and the
+				// observers stay total
+				var err2 error
+				f = call("RunAfterParsed after a rejected Parse", func() { err2 = vm.RunAfterParsed() })
+				if err2 == nil && f == nil {
+					s.Class("run-after-rejected-parse-returned-no-error")
+				}
 			}
 			if f == nil && parsed && st.Call != "ParseOnly" {
 				f = call("RunAfterParsed", func() { err = vm.RunAfterParsed() })
@@ -301,7 +315,7 @@ func drawSource(t *rapid.T, cfg vmx.Cfg, env *gen.Env, s *rt.Section, prev strin
 func TestProp(t *testing.T) {
 	run := rt.Begin(t, "C01")
 	defer run.Finish()
-	rule := "histories of 1..4 steps on one VM (Run | Parse+RunAfterParsed once or twice | Parse only | RunExpr), every observer (Ret printing/repr/JSON, GetDetailText twice, GetAsmText, Matched/RestInput, GetErrorText, IsCalculateExists, Attrs.ToJSON) after every step; sources: hostile-typing templates (any value as any operand of every operator/dice modifier/method/built-in, extreme counts, nesting 1..400 around the capacities), generated program + broken tail, hostile-typed generated programs, byte mutations, raw bytes; all family flags x DisableStmts/NDice/Bitwise x IgnoreDiv0 x random/min/max x DefaultDiceSideExpr x OpCountLimit {200,30000} x ParseExprLimit {0,2000,1e7}. Oracle: no panic escapes, dispatches+rolls stay under 200*budget+2e5, a call yields a value or an error. Non-trivial = some step parsed successfully and (a later step ran on the state it left, or a step ended in a run-time error); distinct by configuration+sources"
+	rule := "histories of 1..4 steps on one VM (Run | Parse+RunAfterParsed once or twice | Parse only | RunExpr | Parse then RunAfterParsed whatever Parse said, once the VM has a program), every observer (Ret printing/repr/JSON, GetDetailText twice, GetAsmText, Matched/RestInput, GetErrorText, IsCalculateExists, Attrs.ToJSON) after every step; sources: hostile-typing templates (any value as any operand of every operator/dice modifier/method/built-in, extreme counts, nesting 1..400 around the capacities), generated program + broken tail, hostile-typed generated programs, byte mutations, raw bytes; all family flags x DisableStmts/NDice/Bitwise x IgnoreDiv0 x random/min/max x DefaultDiceSideExpr x OpCountLimit {200,30000} x ParseExprLimit {0,2000,1e7}. Oracle: no panic escapes, dispatches+rolls stay under 200*budget+2e5, a call yields a value or an error. Non-trivial = some step parsed successfully and (a later step ran on the state it left, or a step ended in a run-time error); distinct by configuration+sources"
 	run.Check("history", 40000, 300000, rule, func(t *rapid.T, s *rt.Section) {
 		c := Case{Cfg: drawCfg(t)}
 		n := rapid.IntRange(1, 4).Draw(t, "nsteps")
@@ -313,7 +327,7 @@ func TestProp(t *testing.T) {
 				src = src[:6000]
 			}
 			prev = src
-			call := rapid.SampledFrom([]string{"Run", "Run", "Run", "ParseRun", "ParseRunRun", "ParseOnly", "RunExpr"}).Draw(t, "call")
+			call := rapid.SampledFrom([]string{"Run", "Run", "Run", "ParseRun", "ParseRunRun", "ParseOnly", "RunExpr", "ParseRunAnyway"}).Draw(t, "call")
 			c.Steps = append(c.Steps, Step{Call: call, Src: src, Flag: rapid.Bool().Draw(t, "flag")})
 			c.Kinds = append(c.Kinds, kind)
 			s.Class("src:" + kind)
